@@ -91,17 +91,17 @@ func probeVariant(t *testing.T, p *world.PKI, v checks.Variant, seed uint64) pro
 }
 
 func quickVariants() []checks.Variant {
-	want := []string{"12-cert", "12-psk", "12-resumed", "12-clientauth", "12-nohv", "12-mtu100", "13-hrr", "13-direct"}
+	want := []string{"12-cert", "12-psk", "12-resumed", "12-clientauth", "12-nohv", "12-mtu100", "13-hrr", "13-direct", "13-mtu200"}
 	return pickVariants(want)
 }
 
 func thoroughVariants() []checks.Variant {
-	want := []string{"12-cert", "12-psk", "12-ecdhepsk", "12-resumed", "12-clientauth", "12-nohv", "12-cid", "12-mtu100", "13-hrr", "13-direct", "13-clientauth"}
+	want := []string{"12-cert", "12-psk", "12-ecdhepsk", "12-resumed", "12-clientauth", "12-nohv", "12-cid", "12-mtu100", "13-hrr", "13-direct", "13-clientauth", "13-mtu200"}
 	return pickVariants(want)
 }
 
 func pickVariants(want []string) []checks.Variant {
-	all := append(checks.Variants12(), checks.Variants13()...)
+	all := append(append(checks.Variants12(), checks.Variants13()...), checks.VariantsCombined()...)
 	var out []checks.Variant
 	for _, n := range want {
 		for _, v := range all {
